@@ -31,8 +31,11 @@ NUMS = [vflt(0.0), vflt(-0.0), vflt(1.0), vflt(-2.0), vflt(2.5), vflt(-2.5), vfl
         vint(0), vint(3), vint(-7), vint(16), vint(10 ** 20), vint(2 ** 53 + 1), vint(10 ** 400), vint(-(10 ** 400))]
 SMALL_INTS = [vflt(0.0), vflt(1.0), vflt(2.0), vflt(3.0), vint(2), vint(0), vflt(10.0), vflt(17.0), vflt(308.0), vflt(309.0), vflt(-1.0), vflt(1.5)]
 FLOAT_TEXTS = ['1', ' 2.5 ', '1e5', '-0', 'abc', '', '1_0', '1__0', 'inf', '-Infinity', 'nan', '0x10', '١٢', '1e-400', '1e999', '.5', '5.',
-               '+.5e-3', '1e', '--1', '3.14159265358979', '9007199254740993', '0.1', '1 2', '\t7\n', '1e+2']
-INT_TEXTS = ['10', ' -7 ', '+3', '1_000', '12abc', '', '3.5', '٣', '0010', '-0', '1e3', '99999999999999999999999', '_1', '1_']
+               '+.5e-3', '1e', '--1', '3.14159265358979', '9007199254740993', '0.1', '1 2', '\t7\n', '1e+2',
+               '\x1c7', '7\x1f', '\x0b7\x0c', '\x857', '\u30007.5\xa0', '1\u30002']
+INT_TEXTS = ['10', ' -7 ', '+3', '1_000', '12abc', '', '3.5', '٣', '0010', '-0', '1e3', '99999999999999999999999', '_1', '1_', '\x1c7', '7\x1f', '\x0b7\x0c', '\u20037',
+             '0x1f', '0X1F', '0x_1f', '0x', '_1f', '1f_', '1__f', 'z', 'Zz', '0b101', '0b', '0o17', '017', '1٣', '-0x1f', '+ 1f', ' +1f ', '0_7', '0b_1', '00_1',
+             '0x__1', '-_1', '1010', '777', 'g', '0b2', '0o8']
 ISO_TEXTS = ['2024-02-29', '2023-02-29', '2024-02-29T12:34:56Z', '2024-02-29T12:34:56+05:30', '2024-02-29T12:34:56.123456-08:00',
              '2024-02-29T12:34:56.1Z', '2024-13-01', '2024-02-29T24:00:00Z', '0001-01-01', '9999-12-31T23:59:59.999Z', '9999-12-31T23:59:59-01:00',
              '0001-01-01T00:00:00+01:00', 'abc', '', '2024-02-29 12:34:56Z', '2024-02-29T12:34:56', '2024-2-29', '2024-02-29\n', '2024-02-29T12:34:56Z\n',
@@ -72,7 +75,7 @@ def signatures(pool):
         'jsonStringify': [anyv, [['null'], vflt(2.0), vint(4), vflt(1.0), vflt(0.0), vflt(1.5)]],
         'jsonParse': [S(JSON_TEXTS)],
         'numberParseFloat': [S(FLOAT_TEXTS)],
-        'numberParseInt': [S(INT_TEXTS), [vflt(10.0), vint(10), vflt(16.0), vflt(2.0), vflt(37.0), vflt(1.0), vflt(10.5)]],
+        'numberParseInt': [S(INT_TEXTS), [vflt(10.0), vint(10), vflt(16.0), vflt(2.0), vflt(8.0), vflt(36.0), vint(16), vflt(37.0), vflt(1.0), vflt(10.5)]],
         'numberToFixed': [NUMS, SMALL_INTS, [['bool', True], ['bool', False], ['null'], vflt(1.0)]],
         'mathRound': [NUMS, SMALL_INTS],
         'mathAbs': one_num, 'mathCeil': one_num, 'mathFloor': one_num, 'mathSign': one_num, 'mathSqrt': one_num,
@@ -284,7 +287,7 @@ return arrayNew(t1, s1, t2, t3, t4, jsonStringify(c), upper('mixed Case') + lowe
 """))
         # 6. dates inside containers, sorted keys, identity
         out.append(('date-objects', f"""d1 = datetimeNew({r.randint(1950, 2050)}, {r.randint(1, 12)}, {r.randint(1, 28)}, {r.randint(0, 23)}, {r.randint(0, 59)}, {r.randint(0, 59)}, {r.choice([0, 5, 120, 999])})
-d2 = d1 + {r.choice([1, 1000, 86400000, -3600000, 0.5])}
+d2 = d1 + {r.choice([1, 1000, 86400000, -3600000, 250])}
 o = objectNew('b', d1, 'a', arrayNew(d2, d2 - d1))
 systemLog(o)
 t = jsonStringify(o, 1)
@@ -336,7 +339,7 @@ def run_family(chk, tier, r):
     codes, errors = core.coq_codes('libcorr', interp.IMPORTS, terms, shard=max(40, len(terms) // (3 * core.NPROC) + 1))
     for k, log in errors:
         chk.corr_fail.append({'class': 'case-file-did-not-evaluate', 'family': 'libcorr', 'shard': k, 'log': log[-800:]})
-    stats = {'cases': len(used), 'agree': 0, 'declined': 0, 'differ': 0, 'fuel': 0, 'skipped_unencodable': skipped}
+    stats = {'cases': len(used), 'agree': 0, 'declined': 0, 'differ': 0, 'fuel': 0, 'skipped_unencodable': skipped, 'declined_programs': []}
     by_fn, by_family = {}, {}
     for j, c in enumerate(codes):
         fam, fn = all_meta[used[j]]
@@ -352,6 +355,8 @@ def run_family(chk, tier, r):
             stats['declined'] += 1
             f['declined'] += 1
             g['declined'] += 1
+            if fam == 'program' and len(stats['declined_programs']) < 6:
+                stats['declined_programs'].append({'kind': fn, 'source': all_cases[used[j]]['text']})
         elif c in (0, 3):
             stats['differ' if c == 0 else 'fuel'] += 1
             if len([x for x in chk.corr_fail if x.get('family') == 'libcorr']) < 12:
